@@ -31,8 +31,8 @@ ASSUMPTIONS = [
     "model histories use every metric except 'statistic' (signed, antisymmetric: no model is defined on it)",
 ]
 BUDGET = {
-    "quick": {"cases": 5000, "seconds": 60, "shards": 8},
-    "thorough": {"cases": 100000, "seconds": 480, "shards": 16},
+    "quick": {"cases": 20000, "seconds": 90, "shards": 8},
+    "thorough": {"cases": 600000, "seconds": 900, "shards": 16},
 }
 REQUIRED_OBS = ["metric_eval_compared", "model_fit_compared", "model_predict_compared", "protected_cases",
                 "fingerprints_compared", "history_on_exact_zero", "other_length_evaluations"]
